@@ -4,4 +4,7 @@
 def build(bin_step, py_step, miri_step, fuzz_step):
     S = {}
     S["C02"] = [bin_step("c02"), bin_step("c02", release=True, tiers=("thorough",))]
+    S["C03"] = [bin_step("c03"), bin_step("c03", release=True, tiers=("thorough",))]
+    S["C04"] = [bin_step("c04"), bin_step("c04", release=True, tiers=("thorough",))]
+    S["C05"] = [bin_step("c05"), bin_step("c05", release=True, tiers=("thorough",))]
     return S
